@@ -432,10 +432,10 @@ def run_shard(shard: dict[str, Any]) -> core.ShardResult:
     # thorough: two deviations for the scripted / evaluator drivers on the untransformed configurations
     bound = 2 if (shard["tier"] == "thorough" and shard["driver"] in ("scripted", "evaluator") and shard["transforms"] == "none") else 1
     for case in variants(shard):
-        if bound == 2 and (case.get("nan_shift") or case.get("max_functions") in (1, 3)):
-            continue  # the two-deviation runs use one NaN-column rotation and budgets {none, 2}; bound 1 covers the rest
+        # the two-deviation runs use one NaN-column rotation and budgets {none, 2}; the other variants run with bound 1
+        case_bound = 1 if (bound == 2 and (case.get("nan_shift") or case.get("max_functions") in (1, 3))) else bound
         baseline_functions = None
-        for choices, chooser, run in explore(lambda ch, c=case: execute(c, ch), bound):
+        for choices, chooser, run in explore(lambda ch, c=case: execute(c, ch), case_bound):
             full = dict(case)
             full["choices"] = choices
             if not any(choices) and baseline_functions is None:
